@@ -1044,8 +1044,16 @@ VmTrap vm_core_execute(VmState *vm) {
                 vm_release(&vm->heap, s);
                 return trap_error(vm, VM_ERR_TYPE_ERROR, "STR_SUBSTR: not a string");
             }
-            uint32_t start = (uint32_t)(start_v.tag == TAG_INT ? start_v.as.i64 : 0);
-            uint32_t len = (uint32_t)(len_v.tag == TAG_INT ? len_v.as.i64 : 0);
+            /* Clamp in 64 bits before narrowing (as the compiled runtime does): a negative
+             * start or length, or a start beyond the end, yields the empty string; a length
+             * reaching past the end yields the rest. */
+            int64_t slen = (int64_t)vmstring_len(s.as.string);
+            int64_t start64 = start_v.tag == TAG_INT ? start_v.as.i64 : 0;
+            int64_t len64 = len_v.tag == TAG_INT ? len_v.as.i64 : 0;
+            if (start64 < 0 || start64 > slen || len64 < 0) { start64 = slen; len64 = 0; }
+            if (len64 > slen - start64) len64 = slen - start64;
+            uint32_t start = (uint32_t)start64;
+            uint32_t len = (uint32_t)len64;
             VmString *result = vm_string_substr(&vm->heap, s.as.string, start, len);
             vm_release(&vm->heap, s);
             stack_push(vm, val_string(result));
